@@ -779,4 +779,6 @@ func TestVerifC27(t *testing.T) {
 	}
 	r.Fixed("babe_sealed_corpus", len(sealedCorpus), func(c *vcommon.Case) { runEqSealed(c, sealedCorpus[c.Idx]) })
 	r.Cases("babe_sealed", r.Scale(60), func(c *vcommon.Case) { runEqSealed(c, nil) })
+	// restarts mid-sequence: a fresh NewSlotState over the same database between checks (zz_verif_c27_restart_test.go)
+	registerC27Restart(r, nCorpus)
 }
